@@ -27,6 +27,13 @@ static void run_case(long idx, case_t *c){
   } else if (!strcmp(c->kind, "pforg")){
     int step = (int)c->step, first = (int)c->first, last = (int)c->last, grain = (int)c->grain;
     mtbb::parallel_for(first, last, step, grain, [step](int a, int b){ for (int i = a; i < b; i += step) hit(i); });
+  } else if (!strcmp(c->kind, "pfh")){
+    /* huge range (up to 2^31 - 1 iterations): the body only records the chunk it is given; output "<idx> OK a:b a:b ..." */
+    static long ca[4096], cb[4096]; static volatile long nc; nc = 0;
+    int step = (int)c->step, first = (int)c->first, last = (int)c->last, grain = (int)c->grain;
+    mtbb::parallel_for(first, last, step, grain, [](int a, int b){ long k = __sync_fetch_and_add(&nc, 1); if (k < 4096){ ca[k] = a; cb[k] = b; } });
+    printf("%ld OK", idx); for (i = 0; i < nc && i < 4096; i++) printf(" %ld:%ld", ca[i], cb[i]); printf("\n");
+    return;
   } else if (!strcmp(c->kind, "tg")){
     mtbb::task_group g; for (i = 0; i < c->last; i++){ tgtask t; t.k = i; t.nested = (int)c->at; g.run(t); } g.wait();
   } else { printf("%ld SKIP\n", idx); return; }
